@@ -19,16 +19,18 @@ v('C01', 'notin-text-compare', 'c01.in-siblings', (P, '''				if compare.Compare(
 					return false, nil
 				}'''))
 v('C01', 'is-null-inverted', 'c01.connectives', (P, 'return leftValue == nil, nil', 'return leftValue != nil && false, nil'))
-v('C01', 'scan-breaks-early', 'exec.scan-complete', (P, '''					if !isMatch {
-						continue
-					}
-					slice = append(slice, current)''', '''					if !isMatch {
-						continue
-					}
-					slice = append(slice, current)
-					if query.limitDefinition == 1 {
-						break
-					}'''))
+v('C01', 'scan-breaks-early', 'exec.scan-complete', (P, '''				if !isMatch {
+					continue
+				}
+				slice = append(slice, current)
+			}''', '''				if !isMatch {
+					continue
+				}
+				slice = append(slice, current)
+				if query.limitDefinition == 1 {
+					break
+				}
+			}'''))
 # ---- C02
 v('C02', 'minus-swapped', 'c02.arith-table', (P, 'rs := *leftValue - *rightValue', 'rs := *rightValue - *leftValue'))
 v('C02', 'shift-swapped', 'c02.arith-table', (P, 'rs := float64(int64(*leftValue) >> int64(*rightValue))', 'rs := float64(int64(*rightValue) >> int64(*leftValue))'))
@@ -463,3 +465,118 @@ v('C07', 'thunk-error-swallowed', 'c07.thunk-siblings', (S, '''					rs, err := d
 						return nil, nil
 					}
 					return Reader(rs, selectors)'''))
+# ---- round-2 rules
+v('C01', 'or-routed-to-and', 'expr.dispatch', (P, '''	case *sqlparser.OrExpr:
+		{
+			return OrExpr(query, current, expr, opts...)''', '''	case *sqlparser.OrExpr:
+		{
+			return AndExpr(query, current, &sqlparser.AndExpr{Left: expr.Left, Right: expr.Right}, opts...)'''))
+v('C01', 'kept-rows-in-place', 'exec.kept-fresh', (P, '''	slice := make([]any, 0)
+	for _, current := range query.from {''', '''	slice := query.from[:0]
+	for _, current := range query.from {'''))
+v('C02', 'star-skips-empty-values', 'c02.star-all-keys', (P, '''					if _, ok := value.(CteEvaluation); ok {
+						continue
+					}''', '''					if _, ok := value.(CteEvaluation); ok || value == nil {
+						continue
+					}'''))
+v('C02', 'valueof-nil-pointer-deref', 'c12.unwrap-table', (H, '''			if value == nil {
+				return nil, nil
+			}
+			return *value, nil''', '''			return *value, nil'''))
+v('C02', 'case-large-shortcut', 'c02.case', (P, '''	if expr.Else == nil {
+		return Expr(query, current, &sqlparser.NullVal{}, opts...)
+	}''', '''	if expr.Else == nil {
+		return Expr(query, current, &sqlparser.NullVal{}, opts...)
+	}
+	if len(expr.Whens) > 3 {
+		return false, nil
+	}'''))
+v('C03', 'whole-table-branch-with-groupby', 'c03.one-row-only-ungrouped', (P, 'if len(query.groupDefinition) == 0 && IsSelectAllAggregate(query) {', 'if IsSelectAllAggregate(query) {'))
+v('C04', 'hashjoin-empty-shortcut', 'c04.entry-matcher', (J, '''	if !j.joinType.IsParallel() {
+		return j.HashJoinFunc(l, r)
+	}''', '''	if len(l.Rows) == 0 {
+		return make([]any, 0), nil
+	}
+	if !j.joinType.IsParallel() {
+		return j.HashJoinFunc(l, r)
+	}'''))
+v('C06', 'distinct-keeps-null-rows', 'c06.distinct-first', (P, '''	for _, item := range current {
+		sha256 := sha256.New()''', '''	for _, item := range current {
+		if item == nil {
+			slice = append(slice, item)
+			continue
+		}
+		sha256 := sha256.New()'''))
+v('C06', 'branch-helper-sets-limit', 'def.writers', (P, '''	data, err := branch.execAndPostProcess()''', '''	branch.limitDefinition = query.limitDefinition
+	data, err := branch.execAndPostProcess()'''))
+v('C07', 'exists-merged-map-hoisted', 'c07.exists-fresh-row', (P, '''	from := make([]any, len(q.from))
+	for i := 0; i < len(q.from); i++ {''', '''	from := make([]any, len(q.from))
+	merged := make(Map, len(current))
+	for i := 0; i < len(q.from); i++ {'''), (P, '''		merged := make(Map, len(item)+len(current))
+''', ''''''))
+v('C08', 'mix-keeps-empty-arrays', 'c08.mix-shape', (S, '''		if array, ok := item.([]any); ok {
+			slice = append(slice, MixArray(array)...)
+			continue
+		}''', '''		if array, ok := item.([]any); ok && len(array) > 0 {
+			slice = append(slice, MixArray(array)...)
+			continue
+		}'''))
+v('C08', 'asarray-unwraps-singleton', 'c08.source-identity', (H, '''	case []any:
+		{
+			return data, nil
+		}
+	case Map:
+		{
+			return []any{data}, nil''', '''	case []any:
+		{
+			if len(data) == 1 {
+				if rows, ok := data[0].([]any); ok {
+					return rows, nil
+				}
+			}
+			return data, nil
+		}
+	case Map:
+		{
+			return []any{data}, nil'''))
+v('C09', 'reader-error-checked-after-loop', 'c09.errors-propagate', (S, '''					slice := make([]any, len(data))
+					for index, item := range data {
+						rs, err := Reader(item, selectors)
+						if err != nil {
+							return nil, err
+						}
+						slice[index] = rs
+					}
+					return slice, nil
+
+				}''', '''					slice := make([]any, len(data))
+					var err error
+					for index, item := range data {
+						var rs any
+						rs, err = Reader(item, selectors)
+						slice[index] = rs
+					}
+					if err != nil {
+						return nil, err
+					}
+					return slice, nil
+
+				}'''))
+v('C12', 'union-branch-uncompleted', 'c12.exec-callers', (P, '''	data, err := branch.execAndPostProcess()''', '''	data, err := branch.exec()'''))
+v('C12', 'star-copies-thunks', 'c12.thunk-resolved', (P, '''					if _, ok := value.(CteEvaluation); ok {
+						continue
+					}
+''', ''''''))
+v('C12', 'item-named-marker', 'c12.marker-key', (P, '''				if name == "<-" {
+					return nil, EXPECTATION_FAILED.Extend("`<-` is reserved for backward navigation. give the column an alias")
+				}
+''', ''''''))
+v('C12', 'plain-document-keeps-marker', 'c12.plain-document', (H, '''		if _, ok := value.(CteEvaluation); ok || key == "<-" {
+			continue
+		}''', '''		if _, ok := value.(CteEvaluation); ok {
+			continue
+		}'''))
+v('C12', 'document-value-not-sanitised', 'c12.thunk-resolved', (H, '''			if document, ok := rs.(Map); ok {
+				return PlainDocument(document), nil
+			}
+''', ''''''))
